@@ -21,6 +21,13 @@ func init() {
 }
 
 func runC18(c *fw.Case) {
+	if c.Index%8 == 5 {
+		// events under injected transfer failures (C14's configurations and schedules)
+		runC14(c)
+		c.KeepViolations("C18/")
+		c.Count("fault_injection_cases", 1)
+		return
+	}
 	switch c.Index % 3 {
 	case 0:
 		mc := gen.Minters(c.R, gen.MintDenom(c.R), 36)
